@@ -481,6 +481,39 @@ impl C03 {
                 (Ok(_), false) => o.fail(&format!("C03/{}-unrepresentable-accepted", fmt), format!("the converter rejects the value but the program `{}` builds", clipv(&src))),
                 (Err(e), true) => o.fail(&format!("C03/{}-in-program-fails", fmt), format!("the converter accepts the value but the program fails: {}\n{}", e, clipv(&src))),
             }
+            // 4. the artifact `ucg build` writes, over an older and longer artifact of the same name
+            if !o.is_fail() && res.is_ok() && crate::tape::fnv(v.show().as_bytes()) % 8 == 0 {
+                o.class("artifact-over-older-file");
+                self.ucg.reset();
+                let path = self.ucg.fresh_path("main", "ucg");
+                let dir = path.parent().unwrap().to_path_buf();
+                let stale: Vec<u8> = std::iter::repeat(b"stale: \"old artifact line\"\n".iter().copied()).take(300).flatten().collect();
+                for ext in ["json", "yaml", "yml", "toml"] {
+                    let _ = std::fs::write(dir.join(format!("main.{}", ext)), &stale);
+                }
+                let _ = std::fs::write(&path, format!("out {} {};\n", fmt, lit));
+                let r = self.ucg.build(&path, true);
+                match r {
+                    Ok(_) => {
+                        let mut found = false;
+                        for ext in ["json", "yaml", "yml", "toml"] {
+                            if let Ok(bytes) = std::fs::read(dir.join(format!("main.{}", ext))) {
+                                if bytes != stale {
+                                    found = true;
+                                    if bytes != buf {
+                                        self.check_text(fmt, &v, &bytes, "artifact written over an older, longer file", &mut o);
+                                    }
+                                }
+                            }
+                        }
+                        if !found {
+                            o.fail(&format!("C03/{}-no-artifact", fmt), format!("the build succeeded but no artifact main.* was written for `{}`", clipv(&src)));
+                        }
+                    }
+                    Err(e) => o.fail(&format!("C03/{}-in-program-fails", fmt), format!("the converter accepts the value but building the file fails: {}\n{}", e, clipv(&src))),
+                }
+                self.ucg.cleanup_case_dir(&path);
+            }
         }
         o
     }
